@@ -221,6 +221,7 @@ pub fn calibrate(obs: &mut Obs) {
         let mut kpp = kp::Params::plain_tex_defaults();
         (row.tweak)(&mut kpp);
         let ts = TextSetup {
+            primer: None,
             text: input.clone(),
             sf_codes: model::plain_sf_codes(),
             space_skip: if row.ragged { common::Glue { width: dim("3.33298pt"), ..Default::default() } } else { common::Glue::ZERO },
